@@ -650,4 +650,92 @@ theorem init_spec (s : St) (cfg : Cfg) (stage : Stage) (failMp : Mp → Bool) (h
           have := this.2 hn
           exact ⟨by simp [this.1], this.2⟩⟩
 
+/-! ## a manager without a filesystem -/
+
+/-- Requests that arrive before the next successful construction: failed `Init`s and
+Mount/Check/Unmount (all rejected). -/
+def Harmless : Op → Prop
+  | .init _ st _ => st ≠ .ok
+  | .mount .. | .check .. | .unmount .. => True
+  | .close | .restart => False
+
+/-- no `Init` that gets as far as constructing a filesystem. -/
+def NoConstruct : Op → Prop
+  | .init _ st _ => st ≠ .ok
+  | _ => True
+
+theorem reachable_run (s : St) (hs : Reachable s) (ops : List Op) : Reachable (run s ops) := by
+  obtain ⟨ops0, rfl⟩ := hs
+  exact ⟨ops0 ++ ops, by simp [run, runWith]⟩
+
+/-- A manager without a filesystem rejects Mount, Check and Unmount without touching anything. -/
+theorem rejects_of_no_fs (s : St) (hst : s.status ≠ .ready) :
+    (∀ mp lab ok, mount s mp lab ok = ⟨s, .err, []⟩) ∧
+    (∀ mp lab ok, check s mp lab ok = ⟨s, .err, []⟩) ∧
+    (∀ mp ok os, unmount s mp ok os = ⟨s, .err, []⟩) := by
+  refine ⟨?_, ?_, ?_⟩ <;> intros <;> simp [mount, check, unmount, hst]
+
+theorem noconstruct_step (s : St) (op : Op) (hop : NoConstruct op) (hc : s.curFs = none)
+    (hst : s.status ≠ .ready) : (step s op).st.curFs = none ∧ (step s op).st.status ≠ .ready := by
+  have R := rejects_of_no_fs s hst
+  cases op with
+  | init c st fm =>
+    simp only [NoConstruct] at hop
+    simp only [step, stepWith]
+    unfold initWith
+    cases st with
+    | ok => exact absurd rfl hop
+    | parse => simp [finishInit, hc]
+    | cfgfunc => simp [finishInit, St.withCfg, hc]
+    | construct => simp [finishInit, St.withCfg, hc]
+  | mount m l ok => simp only [step, stepWith, R.1]; exact ⟨hc, hst⟩
+  | check m l ok => simp only [step, stepWith, R.2.1]; exact ⟨hc, hst⟩
+  | unmount m ok os => simp only [step, stepWith, R.2.2]; exact ⟨hc, hst⟩
+  | close => simp only [step, stepWith, close]; split <;> simp [hc]
+  | restart => simp [step, stepWith, restartManager]
+
+theorem noconstruct_run (ops : List Op) : ∀ (s : St), (∀ op ∈ ops, NoConstruct op) → s.curFs = none →
+    s.status ≠ .ready → (run s ops).curFs = none ∧ (run s ops).status ≠ .ready := by
+  induction ops with
+  | nil => intro s _ hc hst; exact ⟨hc, hst⟩
+  | cons op ops ih =>
+    intro s hops hc hst
+    have := noconstruct_step s op (hops op (List.mem_cons_self ..)) hc hst
+    exact ih (step s op).st (fun o ho => hops o (List.mem_cons_of_mem _ ho)) this.1 this.2
+
+theorem harmless_step (s : St) (op : Op) (hop : Harmless op) (hc : s.curFs = none)
+    (hst : s.status ≠ .ready) :
+    let t := (step s op).st
+    t.curFs = none ∧ t.status ≠ .ready ∧ t.store = s.store ∧ t.fsMap = s.fsMap ∧ t.live = s.live ∧
+    t.closed = s.closed ∧ t.nextFs = s.nextFs := by
+  have R := rejects_of_no_fs s hst
+  cases op with
+  | init c st fm =>
+    simp only [Harmless] at hop
+    simp only [step, stepWith]
+    unfold initWith
+    cases st with
+    | ok => exact absurd rfl hop
+    | parse => simp [finishInit, hc]
+    | cfgfunc => simp [finishInit, St.withCfg, hc]
+    | construct => simp [finishInit, St.withCfg, hc]
+  | mount m l ok => simp only [step, stepWith, R.1]; simp [hc, hst]
+  | check m l ok => simp only [step, stepWith, R.2.1]; simp [hc, hst]
+  | unmount m ok os => simp only [step, stepWith, R.2.2]; simp [hc, hst]
+  | close => exact absurd hop (by simp [Harmless])
+  | restart => exact absurd hop (by simp [Harmless])
+
+theorem harmless_run (ops : List Op) : ∀ (s : St), (∀ op ∈ ops, Harmless op) → s.curFs = none →
+    s.status ≠ .ready →
+    (run s ops).store = s.store ∧ (run s ops).fsMap = s.fsMap ∧ (run s ops).live = s.live ∧
+    (run s ops).closed = s.closed ∧ (run s ops).nextFs = s.nextFs := by
+  induction ops with
+  | nil => intro s _ _ _; exact ⟨rfl, rfl, rfl, rfl, rfl⟩
+  | cons op ops ih =>
+    intro s hops hc hst
+    obtain ⟨h1, h2, h3, h4, h5, h6, h7⟩ := harmless_step s op (hops op (List.mem_cons_self ..)) hc hst
+    have := ih (step s op).st (fun o ho => hops o (List.mem_cons_of_mem _ ho)) h1 h2
+    simp only [h3, h4, h5, h6, h7] at this
+    exact this
+
 end SV.FuseMgr
